@@ -712,8 +712,84 @@ void runFiles(const Plan& p)
 		sim::setNontrivial();
 }
 
+// ================================================================ several threads copying their own files
+// ops: cp(thread, size, seed, rounds, how)   Every thread copies (and moves back) its own file; the disk transfers of the
+// threads interleave block by block. Each destination must equal its own source byte for byte.
+void genFilesConc(Prng& r, Plan& p, int tier)
+{
+	int T = 2 + (int)r.below(2);
+	for (int t = 0; t < T; t++)
+		p.ops.push_back(op("cp", {t, (int64_t)biased(r, 1, tier ? 600000 : 200000, {65535, 65536, 65537, 131072, 140000}), (int64_t)(r.next() >> 20), (int64_t)(1 + r.below(3)), (int64_t)r.below(4)}));
+}
+
+void runFilesConc(const Plan& p)
+{
+	sim::fs::mkdirs("/sim/c");
+	struct W
+	{
+		std::string src, dst, data;
+		int rounds = 1, how = 0, bad = 0;
+		size_t badAt = 0, gotSize = 0;
+		Task task;
+	};
+	std::vector<W> ws;
+	for (auto& o : p.ops)
+		if (o.k == "cp" && ws.size() < 4)
+		{
+			W w;
+			size_t t = ws.size();
+			w.src = "/sim/c/s" + std::to_string(t) + ".bin";
+			w.dst = "/sim/c/d" + std::to_string(t) + ".bin";
+			w.data = bytesOf((uint64_t)o.arg(2), (size_t)std::max<int64_t>(1, std::min<int64_t>(700000, o.arg(1))));
+			// one recognisable byte per thread in every position that is a multiple of 997 (blocks of another file are easy to tell)
+			for (size_t i = 0; i < w.data.size(); i += 997)
+				w.data[i] = (char)('A' + t);
+			w.rounds = (int)std::max<int64_t>(1, std::min<int64_t>(4, o.arg(3)));
+			w.how = (int)(std::abs(o.arg(4)) % 4);
+			sim::fs::put(w.src, w.data);
+			ws.push_back(w);
+		}
+	for (auto& w : ws)
+	{
+		W* wp = &w;
+		w.task.start([wp]() {
+			for (int k = 0; k < wp->rounds; k++)
+			{
+				bool ok = (wp->how & 1) ? asl::File(wp->src.c_str()).copy(wp->dst.c_str()) : asl::Directory::copy(wp->src.c_str(), wp->dst.c_str());
+				std::string got;
+				sim::fs::get(wp->dst, got);
+				if (!ok || got != wp->data)
+				{
+					wp->bad++;
+					wp->gotSize = got.size();
+					wp->badAt = diffAt(got, wp->data);
+				}
+				if (wp->how & 2)
+				{
+					// and through the File object: content() of the copy
+					std::string c = STR(asl::File(wp->dst.c_str()).content());
+					if (c != wp->data)
+						wp->bad++;
+				}
+			}
+		});
+	}
+	for (auto& w : ws)
+		w.task.join();
+	sim::NoSched ns;
+	if (ws.size() >= 2)
+		sim::setNontrivial();
+	for (size_t t = 0; t < ws.size(); t++)
+		if (ws[t].bad)
+			sim::fail("disk_mismatch", "copy;concurrent", "thread %zu of %zu copied its own %zu-byte file %d times while the others copied theirs: %d copies differ from the source (last one: %zu bytes, first difference at offset %zu)", t, ws.size(),
+			          ws[t].data.size(), ws[t].rounds, ws[t].bad, ws[t].gotSize, ws[t].badAt);
+}
+
 } // namespace
 
+REGISTER_SCENARIO(c17_conc, "C17", "files_concurrent", genFilesConc, runFilesConc, 8000, 300000, {2, 4, 16}, 0, 2000000, 300.0,
+                  "non-trivial: >= 2 threads copying at once (their block transfers interleave); distinct by plan hash x context-switch signature",
+                  "src/Directory.cpp (copy), src/File.cpp, glibc stdio (real, over fopencookie)", "VFS (in-memory tree; every cookie read/write is a schedule point), pthread primitives", false);
 REGISTER_SCENARIO(c17_files, "C17", "files", genFiles, runFiles, 100000, 6000000, {1}, 0, 2000000, 300.0,
                   "non-trivial: >=2 writes to one path with a reopen between, a line or size on a chunk/block boundary, a BOM file, an EXDEV move, or an injected fault that fired; distinct by plan hash",
                   "src/File.cpp, src/TextFile.cpp, src/Directory.cpp (copy, move, remove), include/asl/File.h stream operators, glibc stdio (real, over fopencookie)",
